@@ -33,3 +33,30 @@ Theorem C03_not_below_is_ge : forall fexp c thr nl nn ol ml on mn,
   is_nan_f (MergeFacts.stat f nl nn) = false -> is_nan_f thr = false ->
   fge (MergeFacts.stat f nl nn) thr = true.
 Proof. exact MergeFacts.accept_stat_ge. Qed.
+
+(* ---- the pair IN FORCE WHEN THE CLUSTER LAST GREW (Proofs/BirchBoundG.v) ----
+   [same_cluster a b]: same members, same per-bit sums, same count. *)
+From BB Require Import Proofs.BirchBoundG.
+
+(* one operation: every reported cluster afterwards is a singleton, or IS a cluster reported
+   before (unchanged), or meets a (criterion, threshold) pair in force during THIS operation *)
+Theorem C03_step_grown : forall fexp st o,
+  st_inv st -> nf_ok st -> numbered st -> op_wf st o -> op_perms_ok fexp st o ->
+  Forall (grown_ok (sorted_leaves st) (op_pairs st o)) (sorted_leaves (fst (step fexp st o))).
+Proof. exact step_grown. Qed.
+
+(* whole histories: for every reported cluster with two or more members there is an operation o
+   of the history such that the cluster meets a pair in force during o, is a cluster of the state
+   right after o, and is a cluster (same members, same sums) of every later state — it has not
+   grown since *)
+Theorem C03_last_grown : forall fexp cfg0 ops,
+  2 <= c_bf cfg0 -> ops_wf fexp (init cfg0) ops -> ops_perms_ok fexp (init cfg0) ops ->
+  Forall (fun s => sn s <= 1 \/
+            exists pre o post st_k c t,
+              ops = pre ++ o :: post /\ st_k = run fexp cfg0 pre /\
+              In (c, t) (op_pairs st_k o) /\ meets c t s /\
+              (exists s1, In s1 (sorted_leaves (fst (step fexp st_k o))) /\ same_cluster s1 s) /\
+              (forall post1 post2, post = post1 ++ post2 ->
+                 exists s2, In s2 (sorted_leaves (run fexp cfg0 (pre ++ o :: post1))) /\ same_cluster s2 s))
+         (sorted_leaves (run fexp cfg0 ops)).
+Proof. exact run_last_grown. Qed.
